@@ -632,8 +632,11 @@ def py_spec(case, obs):
 
 
 def classify(case, obs):
-    """known finding: in SINGLE mode the table length is never compared with min_seq_len / max_seq_len"""
-    if 'ok' in obs and not obs['ok']['advanced'] and obs.get('py_plays') is None and obs.get('py_tables'):
+    """known finding: in SINGLE mode the table length is not compared with min_seq_len (lower bound only: since the
+    repair of setup_single_sequence_mode a table longer than max_seq_len is rejected, so a too LONG table is a
+    violation in either mode)"""
+    if 'ok' in obs and not obs['ok']['advanced'] and obs.get('py_plays') is None and obs.get('py_tables') \
+            and all(len(t) <= case['cfg']['max'] for t in obs['ok']['seqs']):
         return KF_SINGLE
     return None
 
